@@ -134,7 +134,9 @@ class VonMisesFisherTrainer:
         mean = r / np.maximum(norm, np.finfo(y.dtype).tiny)[..., None]
 
         # [Banerjee2005vMF] Equation 2.5
-        r_bar = norm / np.sum(saliency, axis=-1)
+        # Rounding can lift r_bar above its mathematical maximum of one (e.g.
+        # collinear observations), which flips the sign of the concentration.
+        r_bar = np.minimum(norm / np.sum(saliency, axis=-1), 1)
 
         # [Banerjee2005vMF] Equation 4.4
         concentration = (r_bar * D - r_bar ** 3) / (1 - r_bar ** 2)
